@@ -97,6 +97,9 @@ package app
 // plain file again, not from the range limiter of the request it has just served.
 //@ extern os.File.Seek(f, offset, whence) n, err
 //@ extern os.File.Close(f) err
+//@ extern io.LimitReader(r, n) res
+//@   allocates
+//@   ensures res != nil && fresh(res)
 //@ extern os.File.Name(f) r
 //@ extern os.Open(name) f, err
 //@   allocates
